@@ -68,6 +68,7 @@ def run(prog: Program, rep, tier: str) -> None:
     lu(prog, rep, x)
     iterative(prog, rep)
     no_rhs_mutation(prog, rep)
+    stateless_solve(prog, rep)
 
 
 def status_before_return(prog: Program, rep, c: ClassInfo, sv: FuncInfo) -> None:
@@ -149,6 +150,11 @@ def lu(prog: Program, rep, x: ExcFlow) -> None:
                     mapped = True
     rep.check(mapped, "backend-exception-mapped", init.qualname, short(si.stmt),
               "splu (which raises RuntimeError on an exactly singular matrix) is inside a handler that raises LinearSolverError", init.loc(calls[0]))
+    allowed_kw = {"permc_spec"}
+    extra = [k.arg for k in calls[0].keywords if k.arg not in allowed_kw and not (k.arg == "diag_pivot_thresh" and const_value(k.value) == 1.0)]
+    rep.check(not extra, "lu-partial-pivoting", init.qualname, short(si.stmt),
+              f"splu is called with its default (partial) pivoting - the property that gives a backward error at rounding level for a well conditioned matrix "
+              f"(pivoting-relevant options passed: {extra})", init.loc(calls[0]))
     # which matrix is factorised, and which flag does solve() hand to SuperLU
     arg = fi.resolved(si.stmt, calls[0].args[0])
     alts = [U(a) for a in phi_alternatives(arg)]
@@ -285,3 +291,17 @@ def no_rhs_mutation(prog: Program, rep) -> None:
             mine = [t for t in toks if t.startswith("caller:") and t.endswith(".rhs")]
             rep.check(not mine, "solve-keeps-rhs", sv.qualname, short(sk.si.stmt), f"in-place {sk.kind} on `{U(sk.target)}` does not write into the caller's right-hand side", sv.loc(sk.node))
     rep.note(f"in-place operations inside solve() overrides examined: {n}")
+
+
+def stateless_solve(prog: Program, rep) -> None:
+    """solve() of the installed solvers keeps no state on the solver object: the answer for (rhs, trans, initial_sol) cannot depend on
+    earlier solves (the condition estimator and the step solver share one solver object)."""
+    base = prog.cls(LS)
+    for c in prog.all_subclasses(base):
+        if c.name not in INSTALLED:
+            continue
+        sv = c.methods.get("solve")
+        if sv is None:
+            continue
+        stores = [n for n in own_nodes(sv.node) if isinstance(n, ast.Attribute) and isinstance(n.ctx, (ast.Store, ast.Del)) and is_self_attr(n)]
+        rep.check(not stores, "solve-is-stateless", sv.qualname, U(stores[0]) if stores else "solve", f"{c.name}.solve stores nothing on the solver object", sv.loc(stores[0]) if stores else sv.loc())
